@@ -92,7 +92,7 @@ func runC19(c *mon.Ctx) {
 			continue
 		}
 		r := c.Rng("streams", i)
-		m := gen.RandomModel(r, gen.ModelOpts{MaxPES: 3, MaxPMT: 2, MaxSI: 2, MaxUnits: 3, RichAF: true})
+		m := gen.RandomModel(r, gen.ModelOpts{MaxPES: 3, MaxPMT: 2, MaxSI: 2, MaxUnits: 3, RichAF: true, Scrambled: i%4 < 2, SharedPMTPID: i%4 == 3})
 		s := m.Build(r)
 		clean := true
 		var orig *gen.Stream
